@@ -79,12 +79,18 @@ func (x *Exec) callCommon(fr *frame, st *State, cc *ssa.CallCommon, fnv Value, a
 	if r, ok := x.intrinsic(fr, st, name, args); ok {
 		return r
 	}
-	if fr.top && x.fc != nil && x.fc.AtCall != nil {
+	if fr.top && x.fc != nil && (x.fc.AtCall != nil || len(x.fc.Uses) > 0) {
 		cname := callee.Name()
 		if i := strings.Index(cname, "["); i > 0 {
 			cname = cname[:i] // instance of a generic function: at-call conditions name the generic
 		}
 		nth := x.callSiteOrdinal(fr, site, cname)
+		// lemma instances requested `at call NAME[@k]` (evaluated in the state before the call)
+		for _, ul := range x.fc.Uses {
+			if ul.At == "call "+cname || ul.At == fmt.Sprintf("call %s@%d", cname, nth) {
+				x.useLemma(fr, st, ul, x.loopOpts(fr, nil))
+			}
+		}
 		conds := append([]Clause(nil), x.fc.AtCall[cname]...)
 		conds = append(conds, x.fc.AtCall[fmt.Sprintf("%s@%d", cname, nth)]...)
 		for _, c := range conds {
